@@ -384,11 +384,12 @@ Section Machine.
   Qed.
 
   Definition Vis (done : list (string * row)) (s : dbst) : Prop :=
-    Inv done s /\ d_count s = Z.of_nat (length done) + 1 /    d_db s = expected_db ti (firstn (visible_prefix (length done)) done).
+    Inv done s /\ d_count s = Z.of_nat (length done) + 1 /\
+    d_db s = expected_db ti (firstn (visible_prefix (length done)) done).
 
   Lemma Vis_init : Vis [] (db_init ti).
   Proof.
-    splits; [exact Inv_init|reflexivity|].
+    unfold Vis. splits; [exact Inv_init|reflexivity|].
     unfold visible_prefix. cbn [length firstn]. rewrite firstn_nil.
     unfold db_init, expected_db. cbn [d_db]. apply map_ext. intros [a b]. reflexivity.
   Qed.
@@ -418,7 +419,9 @@ Section Machine.
     - (* a flush boundary: afterwards everything written so far is visible *)
       destruct (db_flush acc ti s1) as [s2|] eqn:E2; cbn [bind] in H; [|discriminate].
       destruct (Inv_flush _ _ _ I1 E2) as (I2 & B2 & C2).
-      assert (exists s3, Inv (done ++ [(t, r)]) s3 /                (forall t cols, In (t, cols) ti -> lget t (d_buf s3) = []) /\ d_count s3 = d_count s1 /                (if (d_count s2 mod cl =? 0) && hc then db_commit acc ti s2 else Ok s2) = Ok s3)
+      assert (exists s3, Inv (done ++ [(t, r)]) s3 /\
+                (forall t cols, In (t, cols) ti -> lget t (d_buf s3) = []) /\ d_count s3 = d_count s1 /\
+                (if (d_count s2 mod cl =? 0) && hc then db_commit acc ti s2 else Ok s2) = Ok s3)
         as (s3 & I3 & B3 & C3 & E3).
       { destruct ((d_count s2 mod cl =? 0) && hc).
         - destruct (db_commit acc ti s2) as [s3|] eqn:E3; cbn [bind] in H; [|discriminate].
@@ -427,12 +430,13 @@ Section Machine.
           + injection E3 as <-. splits; auto.
         - exists s2. splits; auto. }
       rewrite E3 in H. cbn [bind] in H. injection H as <-.
-      splits; [exact HI'|cbn [d_count]; lia|]. cbn [d_db].
+      unfold Vis. splits; [exact HI'|cbn [d_count]; lia|]. cbn [d_db].
       rewrite (Inv_empty_db _ _ I3 B3). f_equal.
       unfold visible_prefix. rewrite HL.
       apply Z.eqb_eq in EF. rewrite C1 in EF.
-      rewrite <- (Z_div_exact_full_2 _ _ ltac:(lia) EF).
-      rewrite <- HL, Nat2Z.id. symmetry. apply firstn_all.
+      assert (EX : Z.of_nat (length done) + 1 = fl * ((Z.of_nat (length done) + 1) / fl)).
+      { apply Z_div_exact_full_2; [lia|exact EF]. }
+      rewrite <- EX, <- HL, Nat2Z.id. symmetry. apply firstn_all.
     - (* not a boundary: the database does not change *)
       cbn [bind] in H. apply Z.eqb_neq in EF. rewrite C1 in EF.
       assert (EC : (d_count s1 mod cl =? 0) = false).
@@ -440,8 +444,8 @@ Section Machine.
         apply Z.mod_divide; [lia|]. apply (Z.divide_trans _ cl); [exact fl_divides_cl|].
         apply Z.mod_divide; [lia|exact Hc]. }
       rewrite EC in H. cbn [andb bind] in H. injection H as <-.
-      splits; [exact HI'|cbn [d_count]; lia|]. cbn [d_db]. rewrite D1, HD. f_equal.
-      unfold visible_prefix. rewrite HL, (div_step _ ltac:(lia) EF).
+      unfold Vis. splits; [exact HI'|cbn [d_count]; lia|]. cbn [d_db]. rewrite D1, HD. f_equal.
+      unfold visible_prefix. rewrite HL, (div_step (Z.of_nat (length done)) (Nat2Z.is_nonneg _) EF).
       rewrite firstn_app.
       replace (Z.to_nat (fl * (Z.of_nat (length done) / fl)) - length done)%nat with 0%nat.
       + cbn [firstn]. rewrite app_nil_r. reflexivity.
@@ -459,6 +463,21 @@ Section Machine.
       rewrite <- app_assoc in H. exact H.
   Qed.
 End Machine.
+
+(* after n writes (before close): count = n + 1, the database shows exactly the first
+   fl * (n / fl) rows, and database ++ buffer = everything written so far *)
+Theorem db_visible_prefix acc hc fl cl ti rows s :
+  NoDup (map fst ti) -> 0 < fl -> 0 < cl -> (fl | cl) ->
+  db_writes acc hc fl cl ti (db_init ti) rows = Ok s ->
+  d_count s = Z.of_nat (length rows) + 1 /\
+  d_db s = expected_db ti (firstn (Z.to_nat (fl * (Z.of_nat (length rows) / fl))) rows) /\
+  (forall t cols, In (t, cols) ti ->
+     lget t (d_db s) ++ map (project cols) (lget t (d_buf s)) = map (project cols) (rows_of t rows)).
+Proof.
+  intros ND F C D H.
+  destruct (db_visible acc hc fl cl ti ND F C D rows [] _ _ (Vis_init fl ti) H) as ((_ & HE) & HC & HD).
+  cbn [app] in *. splits; [exact HC|exact HD|exact HE].
+Qed.
 
 (* every written row of a known table is in the database afterwards *)
 Theorem db_every_row acc hc fl cl ti rows s :
@@ -858,7 +877,7 @@ Theorem success_means_lossless_refuted :
     total (d_db st) = 0 /\ length rows = 3%nat /\
     (forall crows, cleaned FDb rows = Ok crows -> d_db st <> expected_db (env_tables e) crows) /\
     app_run e (map (init_stream e) [FDb; FJson; FSql]) rows = Ok (ss, false) /\
-    map summarise ss = [SumDb false [("A"%string, 0)]; SumFile false 3; SumDb false [("A"%string, 0)]].
+    map summarise ss = [SumDb true [("A"%string, 0)]; SumFile false 3; SumDb false [("A"%string, 0)]].
 Proof.
   exists k9_env, k9_rows.
   eexists. eexists. split; [exact k9_env_ok|].
